@@ -336,33 +336,36 @@ theorem lookup_live' {sp : Spec} (hs : SInv sp) {id : Id} {r : Reg} (h : sp.look
   exact Spec.mem_liveRegs.mpr (Or.inl ⟨id, h⟩)
 
 /-- what a nested hash dispatch may log: nothing, or one invocation of a live registration -/
+theorem hashOutcome_calls {sp : Spec} (hs : SInv sp) (m : List Byte) (h : HRes) (cid : Option Id) :
+    ∀ e, e ∈ (sp.hashOutcome m h cid).1 → ∃ r id, e = .call r id ∧ r ∈ sp.liveRegs := by
+  unfold Spec.hashOutcome
+  cases cid with
+  | none => intro e he; cases he
+  | some id2 =>
+    simp only
+    cases hlk : sp.lookup id2 with
+    | some r2 =>
+      have hr2 := lookup_live' hs hlk
+      simp only
+      split <;> (intro e he; simp at he; exact ⟨r2, id2, he, hr2⟩)
+    | none =>
+      cases hfb : sp.fb with
+      | some r2 =>
+        intro e he; simp at he
+        exact ⟨r2, id2, he, Spec.mem_liveRegs.mpr (Or.inr hfb)⟩
+      | none =>
+        simp only
+        split <;> (intro e he; cases he)
+
 theorem hashOutcomes_calls {sp : Spec} (hs : SInv sp) {msg : Option (List Byte)} {h : HRes} {o : List LogE × Int × Id}
     (ho : o ∈ sp.hashOutcomes msg h) : ∀ e, e ∈ o.1 → ∃ r id, e = .call r id ∧ r ∈ sp.liveRegs := by
   unfold Spec.hashOutcomes at ho
   cases msg with
   | none => simp at ho; subst ho; intro e he; cases he
   | some m =>
-    simp only [List.mem_flatMap] at ho
-    obtain ⟨cid, _, hin⟩ := ho
-    cases cid with
-    | none => simp at hin; subst hin; intro e he; cases he
-    | some id2 =>
-      simp only at hin
-      cases hlk : sp.lookup id2 with
-      | some r2 =>
-        simp only [hlk] at hin
-        have hr2 := lookup_live' hs hlk
-        split at hin <;> (simp only [List.mem_singleton] at hin; subst hin; intro e he; simp at he; exact ⟨r2, id2, he, hr2⟩)
-      | none =>
-        simp only [hlk] at hin
-        cases hfb : sp.fb with
-        | some r2 =>
-          simp only [hfb, List.mem_singleton] at hin; subst hin
-          intro e he; simp at he
-          exact ⟨r2, id2, he, Spec.mem_liveRegs.mpr (Or.inr hfb)⟩
-        | none =>
-          simp only [hfb] at hin
-          split at hin <;> (simp only [List.mem_singleton] at hin; subst hin; intro e he; cases he)
+    simp only [List.mem_map] at ho
+    obtain ⟨cid, _, rfl⟩ := ho
+    exact hashOutcome_calls hs m h cid
 
 theorem stepDeliver_inv {sp sp' : Spec} {r : Reg} {id : Id} {msg : Option (List Byte)} {nest : Bool} {h : HRes} {out : Out}
     {L : List LogE}
